@@ -462,10 +462,10 @@ def hungarian_max(W):
     """maximum-weight perfect assignment with dual potentials (exact Fractions).  Returns (u, v, sigma 1-based, total)
     with u[k] + v[h] >= W[k][h] everywhere and equality along sigma."""
     n = len(W)
-    INF = Fraction(10 ** 9)
-    cost = [[-Fraction(x) for x in row] for row in W]
-    u = [Fraction(0)] * (n + 1)
-    v = [Fraction(0)] * (n + 1)
+    INF = 10 ** 9
+    cost = [[-x for x in row] for row in W]          # entries: Fractions or integers (units)
+    u = [0] * (n + 1)
+    v = [0] * (n + 1)
     p = [0] * (n + 1)
     way = [0] * (n + 1)
     for i in range(1, n + 1):
@@ -513,7 +513,7 @@ def hungarian_max(W):
 
 def certificate(W):
     U, V, sigma, _ = hungarian_max(W)
-    return {'u': [fr(x) for x in U], 'v': [fr(x) for x in V], 'sigma': sigma}
+    return {'u': [fr(Fraction(x)) for x in U], 'v': [fr(Fraction(x)) for x in V], 'sigma': sigma}
 
 
 def max_int(x):
@@ -895,6 +895,116 @@ def observe_chunk(items, extra):
     return out
 
 
+# ------------------------------------------------------------------------------------------------ matching-core stream
+# A dense, cheap stream of flat unordered problems aimed at the assignment core (the solver both ListGrader and
+# SingleListGrader use): random credit matrices with 4..7 inputs over small palettes, graded by real ListGraders with
+# TableGrader subgraders and judged by the trace spec (n! enumeration for 4 inputs, LP-duality certificate above).
+CORE_SIZES = [4] * 2 + [5] * 6 + [6] * 7 + [7] * 5
+CORE_DENS = [2, 2, 1, 3, 4]
+
+
+def core_case(seed, i):
+    r = random.Random('%s-core-%d' % (seed, i))
+    n = r.choice(CORE_SIZES)
+    den = r.choice(CORE_DENS)
+    A = 2 if r.random() < .15 else 1
+    pc = r.random() < .9
+    style = r.random()
+    if style < .6:
+        pal = list(range(den + 1))
+    elif style < .8:
+        pal = [0] * 2 + list(range(den + 1))                 # sparse
+    else:
+        pal = list(range(den + 1)) + [den] * 2               # dense in full credit
+    tensor = [[[r.choice(pal) for _ in range(n)] for _ in range(n)] for _ in range(A)]
+    return n, den, A, pc, tensor
+
+
+def observe_core(rig, den):
+    """raw observation of a flat rig: per box [a, j, units, ok, inp] (zeros when the entry carries no cell marker)"""
+    res = rig.grader(None, list(rig.inputs))
+    out = []
+    for e in res['input_list']:
+        m = MARK.fullmatch(e.get('msg', ''))
+        a = j = inp = 0
+        if m and m.group(1) == 'A':
+            a, j = [int(x) for x in m.group(2).split('.')]
+            inp = int(m.group(5))
+        u = e['grade_decimal'] * den
+        out.append([a, j, int(round(u)) if abs(u - round(u)) <= 1e-9 else -1, ok_name(e['ok']), inp])
+    return out
+
+
+def core_chunk(items, extra):
+    from engine import repo
+    repo.activate()
+    rigs = {}
+    recs = []
+    for i in items:
+        n, den, A, pc, tensor = core_case(extra['seed'], i)
+        key = (n, A, False, pc, 'single')
+        if key not in rigs:
+            rigs[key] = FlatRig(*key)
+        rig = rigs[key]
+        rig.load(tensor, den)
+        rec = {'id': i, 'kind': 'flat', 'den': den, 'M': tensor, 'ordered': False, 'pc': pc, 'cert': [], 'n': n}
+        if n > 4:
+            rec['cert'] = []
+            for a in range(A):
+                U, V, sigma, _ = hungarian_max(tensor[a])
+                rec['cert'].append({'u': U, 'v': V, 'sigma': sigma})
+        try:
+            rec['obs'] = observe_core(rig, den)
+        except Exception as e:  # noqa
+            rec['error'] = 'raised %s: %s' % (type(e).__name__, str(e)[:100])
+        recs.append(rec)
+    return recs
+
+
+class _ShimCtx(object):
+    """stand-in for the check context so that several trace files can be validated by concurrent TLC runs; the
+    counters are merged into the real context afterwards, in the main thread"""
+
+    def __init__(self, ctx):
+        self.scratch = ctx.scratch
+        self.traces_validated = 0
+        self.runs = []
+
+    def tlc(self, module, cfg=None, must_hold=True, **kw):
+        from engine import tlc
+        from engine.main import Machinery
+        kw.setdefault('scratch', self.scratch)
+        try:
+            r = tlc.run(module, cfg, **kw)
+        except tlc.TLCError as e:
+            raise Machinery(str(e))
+        self.runs.append({'module': module, 'cfg': cfg, 'distinct': r.distinct, 'generated': r.generated,
+                          'wall_s': round(r.wall, 1), 'violated': r.violated})
+        return r
+
+
+def validate_parallel(ctx, records, name, jobs=6, per_file=6000):
+    """trace-validate many independent records with several concurrent single-worker TLC runs"""
+    from concurrent.futures import ThreadPoolExecutor
+    files = [records[i:i + per_file] for i in range(0, len(records), per_file)]
+    shims = [_ShimCtx(ctx) for _ in files]
+
+    def one(k):
+        return traces.validate(shims[k], 'graders/ListGradingTrace.tla', 'graders/ListGradingTrace.cfg', files[k],
+                               name='%s%d' % (name, k), timeout=3000)
+    with ThreadPoolExecutor(max_workers=jobs) as ex:
+        results = list(ex.map(one, range(len(files))))
+    rej = {}
+    for sh, r in zip(shims, results):
+        rej.update(r)
+        ctx.traces_validated += sh.traces_validated
+        for run in sh.runs:
+            ctx.states += run['distinct']
+            ctx.transitions += run['generated']
+            ctx.tlc_runs.append(run)
+    return rej
+
+
 # ------------------------------------------------------------------------------------------------ verdicts
 CLAUSE_TEXT = {
     'position': 'an entry is reported at a box other than that of the input it grades',
@@ -1004,7 +1114,7 @@ def run(ctx):
     for r in good:
         shapes[r['shape']] = shapes.get(r['shape'], 0) + 1
         ctx.nontrivial.add(('random', r['shape']))
-    trace_recs = [{'id': r['id'], 'tree': r['tree'], 'obs': r['obs'], 'direct': r['direct']} for r in good]
+    trace_recs = [{'id': r['id'], 'kind': 'layout', 'tree': r['tree'], 'obs': r['obs'], 'direct': r['direct']} for r in good]
     rej = traces.validate(ctx, 'graders/ListGradingTrace.tla', 'graders/ListGradingTrace.cfg', trace_recs, timeout=3000)
     ctx.evaluations += len(good)
     byid = {r['id']: r for r in good}
@@ -1026,6 +1136,31 @@ def run(ctx):
     missing = [f for f in FEATURES if not feats.get(f)]
     if missing:
         raise Machinery('random driver never exercised: %s (vacuity guard)' % ', '.join(missing))
+    # dense stream aimed at the matching core
+    n_core = 30000 if ctx.quick else 150000
+    crecs = [r for chunk in dump.pmap('engine.adapters.c05', 'core_chunk', list(range(n_core)), {'seed': ctx.seed}) for r in chunk]
+    cgood = []
+    for r in crecs:
+        if 'error' in r:
+            sig = {'kind': 'core', 'case': r['id'], 'case_seed': ctx.seed, 'n': r['n'], 'den': r['den'], 'tensor': r['M'],
+                   'pc': r['pc'], 'error': r['error'], 'class': 'C05-raised'}
+            ctx.violation(sig, 'unordered ListGrader on %dx%d credits %r: %s' % (r['n'], r['n'], r['M'], r['error']))
+        else:
+            cgood.append(r)
+    crej = validate_parallel(ctx, [{k: v for k, v in r.items() if k != 'n'} for r in cgood], 'core')
+    ctx.evaluations += len(cgood)
+    cby = {r['id']: r for r in cgood}
+    for r in cgood:
+        ctx.nontrivial.add(('core', r['n'], r['den'], len(r['M']), r['pc']))
+    for i, clause in sorted(crej.items()):
+        r = cby[i]
+        if clause in ('layout', 'cert'):
+            raise Machinery('core record %s rejected for machinery reason %r' % (i, clause))
+        sig = {'kind': 'core', 'case': i, 'case_seed': ctx.seed, 'n': r['n'], 'den': r['den'], 'tensor': r['M'], 'pc': r['pc'],
+               'clause': clause, 'class': 'C05-' + clause, 'obs': r['obs']}
+        ctx.violation(sig, 'unordered ListGrader, %d inputs, credits (units of 1/%d) %r: reported %r -- %s' % (
+            r['n'], r['den'], r['M'], [e[:4] for e in r['obs']], CLAUSE_TEXT.get(clause, clause)))
+    ctx.sample({'core_record': {k: v for k, v in cgood[0].items() if k != 'cert'}}, limit=7)
     big = sum(1 for r in good if has_cert(r['tree']))
     ctx.extra['bounds'] = {'tier': ctx.tier, 'random_records': len(good), 'random_skipped_large_rationals': skipped,
                            'random_with_certificate': big, 'max_inputs_random': max_n,
@@ -1034,7 +1169,9 @@ def run(ctx):
                                '5 (6 with <= 3 groups)' if ctx.quick else '6 (7 with <= 3 groups, 8 with 2 groups)'),
                            'groupings_group_map': 'all valid groupings of <= %d inputs: laws + helper drift monitor + 1/%d through a real grader' % (
                                6 if ctx.quick else 8, 4 if ctx.quick else 24),
-                           'grader_calls_replayed': total_calls}
+                           'grader_calls_replayed': total_calls,
+                           'matching_core_records': '%d random flat unordered problems, 4..7 inputs, credits k/den for den in 1..4, '
+                                                    'n! enumeration at 4 inputs, checked LP-duality certificate above' % len(cgood)}
     ctx.extra['random_shapes'] = len(shapes)
     ctx.assumptions += [
         'credits are realised through a table-driven ItemGrader; cells graded by SingleListGrader take the credit the real '
@@ -1078,12 +1215,21 @@ def replay(ctx, rec):
         print('observed now:', obs)
         print('allowed (first):', sig['allowed'][:6])
         return obs in sig['allowed']
+    if sig.get('kind') == 'core':
+        recs = core_chunk([sig['case']], {'seed': sig['case_seed']})
+        print('observed now:', recs[0].get('obs'), recs[0].get('error'))
+        if 'error' in recs[0]:
+            return False
+        rej = traces.validate(ctx, 'graders/ListGradingTrace.tla', 'graders/ListGradingTrace.cfg',
+                              [{k: v for k, v in recs[0].items() if k != 'n'}])
+        print('trace spec:', rej or 'accepted')
+        return not rej
     if sig.get('kind') == 'random':
         r = observe_random(sig['case'], sig['case_seed'], sig.get('max_n', 8))
         print('observed now:', r.get('obs'), r.get('error'))
         if 'error' in r:
             return False
-        t = [{'id': r['id'], 'tree': r['tree'], 'obs': r['obs'], 'direct': r['direct']}]
+        t = [{'id': r['id'], 'kind': 'layout', 'tree': r['tree'], 'obs': r['obs'], 'direct': r['direct']}]
         rej = traces.validate(ctx, 'graders/ListGradingTrace.tla', 'graders/ListGradingTrace.cfg', t)
         print('trace spec:', rej or 'accepted')
         return not rej
